@@ -274,3 +274,53 @@ def run(ctx):
             if snap(args) != before:
                 ctx.violation("Gillespie_simple_contagion modified its arguments: %s" % first_diff(before, snap(args)), rep)
                 break
+    display_kwargs(ctx)
+
+
+def display_kwargs(ctx):
+    """full-data calls with the documented `sim_kwargs` (pos / color_dict / tex handed on to Simulation_Investigation): the
+    caller's graph (nodes, edges, ALL attributes) and the caller's keyword dict with its inner dicts must be unchanged
+    afterwards, twice in a row.  Real seeded generators."""
+    import random, EoN
+    sims_ = ["fast_SIR", "fast_SIS", "Gillespie_SIR", "Gillespie_SIS", "basic_discrete_SIR", "basic_discrete_SIS", "fast_nonMarkov_SIR"]
+    for k in range(ctx.scale(28, 140)):
+        r = ctx.rng
+        sim = sims_[k % len(sims_)]
+        G = gen.random_graph(r, 3, 9)
+        if r.random() < 0.5:
+            for u in G:
+                G.nodes[u]["age"] = r.randint(1, 90)         # caller's own attributes
+        seed = r.randrange(10 ** 6)
+        pos = {u: (float(i), float(i * i % 5)) for i, u in enumerate(G)}
+        which = r.choice(["pos", "pos", "pos+color", "color", "tex"])
+        skw = {}
+        if "pos" in which:
+            skw["pos"] = pos
+        if "color" in which:
+            skw["color_dict"] = {"S": "#009a80", "I": "#ff2000", "R": "gray"}
+        if which == "tex":
+            skw["tex"] = False
+        args = (G, skw)
+        before = snap(args)
+        rep = dict(entry=sim, stream="sim_kwargs", keys=sorted(skw), n=G.order(), seed=seed)
+        ctx.case(rep, nontrivial=True)
+        ctx.count("sim_kwargs:" + sim)
+        for i in (1, 2):
+            random.seed(seed); np.random.seed(seed)
+            try:
+                if sim.startswith("basic_discrete"):
+                    obj = getattr(EoN, sim)(G, 0.5, initial_infecteds=[list(G)[0]], tmax=4, return_full_data=True, sim_kwargs=skw)
+                elif sim == "fast_nonMarkov_SIR":
+                    obj = EoN.fast_nonMarkov_SIR(G, trans_time_fxn=lambda s, t: 1.0, rec_time_fxn=lambda u: 2.0, initial_infecteds=[list(G)[0]],
+                                                 tmax=5, return_full_data=True, sim_kwargs=skw)
+                else:
+                    obj = getattr(EoN, sim)(G, 1.0, 1.0, initial_infecteds=[list(G)[0]], tmax=3, return_full_data=True, sim_kwargs=skw)
+                if "pos" in skw:
+                    obj.set_pos(dict(pos))            # documented way of (re)setting the layout of the result object
+            except Exception as e:
+                ctx.violation("%s(return_full_data=True, sim_kwargs=%s): call %d raised %s" % (sim, sorted(skw), i, type(e).__name__), dict(rep, error=repr(e)[:200]))
+                break
+            if snap(args) != before:
+                ctx.violation("%s(return_full_data=True, sim_kwargs=%s) modified the caller's graph / keyword dict: %s"
+                              % (sim, sorted(skw), first_diff(before, snap(args))), dict(rep, call=i))
+                break
